@@ -50,8 +50,8 @@ def _has_ttc_distribution(node: AttackGraphNode) -> bool:
     with it (anything other than the Enabled/Disabled pseudo-distributions).
     Such a node always counts as necessary for its children.
     """
-    return bool(node.ttc) and 'name' in node.ttc and \
-        node.ttc['name'] not in ['Enabled', 'Disabled']
+    return bool(node.ttc) and not ('name' in node.ttc and \
+        node.ttc['name'] in ['Enabled', 'Disabled'])
 
 def propagate_necessity_from_node(node: AttackGraphNode) -> None:
     """
@@ -64,13 +64,12 @@ def propagate_necessity_from_node(node: AttackGraphNode) -> None:
         node.full_name, node.id, node.is_necessary
     )
 
-    if node.ttc and 'name' in node.ttc:
-        if node.ttc['name'] not in ['Enabled', 'Disabled']:
-            # Do not propagate unnecessary state from nodes that have a TTC
-            # probability distribution associated with them.
-            # TODO: Evaluate this more carefully, how do we want to have TTCs
-            # impact necessity and viability.
-            return
+    if _has_ttc_distribution(node):
+        # Do not propagate unnecessary state from nodes that have a TTC
+        # probability distribution associated with them.
+        # TODO: Evaluate this more carefully, how do we want to have TTCs
+        # impact necessity and viability.
+        return
 
     for child in node.children:
         original_value = child.is_necessary
